@@ -1226,7 +1226,17 @@ func runC11R8(c *Ctx, r *Rep) {
 				})
 				for k, n := range counts {
 					r.analysed(id)
-					if why, ok := confirmedAsserts[k]; ok {
+					why, ok := confirmedAsserts[k]
+					if !ok {
+						// the assertion was moved into a helper extracted from a function the table lists it under
+						for _, from := range knownCallers(c, p, fd) {
+							if w, found := confirmedAsserts[from+strings.TrimPrefix(k, id)]; found {
+								why, ok = w+" (moved from "+from+")", true
+								break
+							}
+						}
+					}
+					if ok {
 						r.okTrivial(rel+"|"+k, first[k], "%d×; confirmed: %s", n, why)
 					} else {
 						r.bad(rel+"|"+k, first[k], "unchecked type assertion (%d×) whose operand's dynamic type is not fixed by the surrounding construct and which is not in the confirmed table: for some source text it panics ('interface conversion'), reported as SystemError", n)
